@@ -245,18 +245,17 @@ func (f *File) Write(p []byte) (int, error) {
 // WriteString goes through Write so that it is a fault point too.
 func (f *File) WriteString(x string) (int, error) { return f.Write([]byte(x)) }
 
-// ReadFrom is hidden so that io.Copy style helpers use Write.
+// ReadFrom does what (*os.File).ReadFrom does for a source that is not a file: the generic
+// copy loop over Write (one Write if the source can write itself, else 32 KiB pieces), so that
+// every piece is a write of its own for the scheduler, the fault plan and the crash point.
 func (f *File) ReadFrom(r io.Reader) (int64, error) {
 	if f == nil {
 		return 0, os.ErrInvalid
 	}
-	buf, err := io.ReadAll(r)
-	if err != nil {
-		return 0, err
-	}
-	n, err := f.Write(buf)
-	return int64(n), err
+	return io.Copy(onlyWriter{f}, r)
 }
+
+type onlyWriter struct{ io.Writer }
 
 // Close is a fault point.
 //
